@@ -73,6 +73,8 @@ def build(spec, fns):
             # an object whose methods return spec functions of their arguments
             ns = types.SimpleNamespace(**{a: build(v, fns) for a, v in spec.get("attrs", {}).items()})
             for m, fname in spec.get("methods", {}).items():
+                if fname not in fns:
+                    continue
                 setattr(ns, m, (lambda fn: (lambda *a, **kw: fn(*[np.asarray(x, dtype=float) for x in flatten_args(a)])))(fns[fname]))
             return ns
         if k == "callable":
